@@ -14,6 +14,9 @@ CORPORA = {
                           family="stream", trace="StreamTrace.tla", tracecfg="StreamTrace.cfg"),
     "stream_faults": dict(gen="MCStream.tla", cfg={"quick": "stream_faults_quick.cfg", "thorough": "stream_faults_thorough.cfg"},
                           family="stream", trace="StreamTrace.tla", tracecfg="StreamTrace.cfg"),
+    # a custom compression ("zz") whose decompressor reports a checksum mismatch only from Close
+    "stream_zzfaults": dict(gen="MCStream.tla", cfg={"quick": "stream_zzfaults_quick.cfg", "thorough": "stream_zzfaults_quick.cfg"},
+                            family="stream", trace="StreamTrace.tla", tracecfg="StreamTrace.cfg"),
     "stream_reject": dict(gen="MCStream.tla", cfg={"quick": "stream_reject_quick.cfg", "thorough": "stream_reject_thorough.cfg"},
                           family="stream", trace="StreamTrace.tla", tracecfg="StreamTrace.cfg"),
     "stream_hostile": dict(gen="MCStream.tla", cfg={"quick": "stream_hostile_quick.cfg", "thorough": "stream_hostile_thorough.cfg"},
@@ -80,10 +83,10 @@ PROPS = {
                 # what-if configurations that MUST fail (guards against a vacuous model): the short-read defect of the
                 # pinned tree on the request side, a right-aligned envelope prefix on the response side
                 whatif=[("MCFraming.tla", "framing_R2_asbuilt.cfg"), ("MCFramingW.tla", "framingw_W1_reframe_rightcopy.cfg")]),
-    "C09": dict(corpora=["stream_faults"], prefix="C09."),
+    "C09": dict(corpora=["stream_faults", "stream_zzfaults"], prefix="C09."),
     "C10": dict(corpora=["limits"], prefix="C10."),
     "C20": dict(corpora=["schema", "grpcwrap", "grpcwrap_json"], corpora_thorough=["schema", "schema_errors", "grpcwrap", "grpcwrap_errors", "grpcwrap_json"], prefix="C20."),
-    "C11": dict(corpora=["stream_hostile", "stream_faults", "stream_errors", "stream_reject"], prefix="C11."),
+    "C11": dict(corpora=["stream_hostile", "stream_faults", "stream_errors", "stream_reject", "limits"], prefix="C11."),
     "C12": dict(corpora=["timeout"], prefix="C12.",
                 # unbounded arithmetic of the gRPC / Connect timeout encoders (SMT): the code's comparisons must be
                 # proved, the what-if (<= at the unit boundaries) must be refuted
